@@ -64,3 +64,35 @@ def _(E, m, a, c0):
 def _(E, m, a, c0):
     if a: return NotImplemented
     return Opaque('io::' + c0.split('::')[-1])
+
+# ------------------------------------------------------------------ slice::sort_by / sort_unstable_by / Vec::dedup (concrete length, symbolic elements)
+from .models import _elem_call
+@pattern(r'(?:core|std)::slice::<impl \[(.*)\]>::(sort_by|sort_unstable_by)(?:::<.*>)?')
+def _(E, m, a, c0):
+    """the stable sorted permutation by insertion sort: the comparator closure is called on references and decides (it forks on
+    symbolic data); for a comparator that is a strict weak order this is exactly what the std merge sort returns (sort_by is
+    stable; for sort_unstable_by the order of equal elements is unspecified, so callers that depend on it are outside)"""
+    v = E.deref(a[0]); xs = list(v.fields); out = []
+    for x in xs:
+        j = len(out)
+        while j > 0:
+            o = E.call_closure(a[1], [Ref(Cell(out[j - 1])), Ref(Cell(x))])
+            if not (isinstance(o, Adt) and o.ty == 'Ordering'): raise Missing('sort_by: comparator result ' + repr(o)[:80])
+            if o.variant != 'Greater': break
+            j -= 1
+        out.insert(j, x)
+    E.wr(a[0], Seq(out)); return UNIT
+@pattern(r'Vec::<(.*)>::dedup|Vec::dedup')
+def _(E, m, a, c0):
+    mm = re.search(r'Vec::<(.*)>::dedup', c0)
+    if not mm: raise Missing('Vec::dedup without an element type')
+    ty = mm.group(1); v = E.deref(a[0]); out = []
+    for x in v.fields:
+        if out and E.branch(_elem_call(E, ty, 'PartialEq', 'eq', x, out[-1])): E.drop_value(x); continue          # std: same_bucket(current, previous kept)
+        out.append(x)
+    E.wr(a[0], Seq(out)); return UNIT
+
+@pattern(r'Option::<Option<.*>>::flatten|Option::flatten')
+def _(E, m, a, c0):
+    x = a[0]
+    return x.fields[0] if x.variant == 'Some' else opt()
